@@ -503,6 +503,8 @@ type Spec struct {
 	EdgeKill func(a Atom) bool
 	Instr    func(ins ssa.Instruction, in bool) bool
 	Deep     int // callee summary depth (0 = none)
+	// NoSummary: see Flow.NoSummary
+	NoSummary func(ins ssa.Instruction) bool
 	flows    map[deepKey]*Flow
 }
 
@@ -515,7 +517,7 @@ func (s *Spec) On(fn *ssa.Function, entry bool) *Flow {
 	if fl, ok := s.flows[k]; ok {
 		return fl
 	}
-	fl := (&Flow{P: s.P, Fn: fn, Entry: entry, Edge: s.Edge, EdgeKill: s.EdgeKill, Instr: s.Instr}).WithDeep(s.Deep, nil).Solve()
+	fl := (&Flow{P: s.P, Fn: fn, Entry: entry, Edge: s.Edge, EdgeKill: s.EdgeKill, Instr: s.Instr, NoSummary: s.NoSummary}).WithDeep(s.Deep, nil).Solve()
 	s.flows[k] = fl
 	return fl
 }
